@@ -117,6 +117,13 @@ impl BlockDecoder {
             section.compressed_size
         );
 
+        // The literals are part of the block's regenerated content, which is limited to MAX_BLOCK_SIZE
+        if section.regenerated_size > MAX_BLOCK_SIZE {
+            return Err(DecompressBlockError::LiteralsSizeTooLarge {
+                size: section.regenerated_size,
+            });
+        }
+
         let upper_limit_for_literals = match section.compressed_size {
             Some(x) => x as usize,
             None => match section.ls_type {
